@@ -112,11 +112,67 @@ class Module:
                     if not isinstance(t, ast.Name):
                         raise Unclassified(f"{self.file}: logger bound to {src(t)}")
                     self.loggers.add(t.id)
+        self.split_conditional_logs()
+        self.parent = {}
+        for n in ast.walk(self.tree):
+            for c in ast.iter_child_nodes(n):
+                self.parent[c] = n
         self.sites = {}  # id(call) -> dict
         self.order = []
         self.secret_classes = secret_repr_classes(self.tree)
         self.secret_args = []  # (function, expression): a logging argument that is an object of such a class
         self.check_logger_uses()
+
+    def split_conditional_logs(self):
+        """equivalent statement shapes normalised to the one the reference inventory uses (a logging call per branch):
+             logger.L(.., A if T else B, ..)                       ==>  if T: logger.L(.., A, ..) else: logger.L(.., B, ..)
+             v = A if T else B ; logger.L(.., v, ..)  (v read once)  ==>  the same
+        Side conditions: the call is a whole statement, the other arguments are names / constants (evaluating them after
+        T instead of before is unobservable), v is a plain local read nowhere else in the function.  Same order of
+        effects: T, then exactly one of A / B, then the record."""
+
+        def pure(a):
+            return isinstance(a, (ast.Name, ast.Constant))
+
+        def split(call, idx, ifexp):
+            def mk(val):
+                c = ast.Call(func=call.func, args=list(call.args), keywords=call.keywords)
+                c.args[idx] = val
+                return ast.copy_location(ast.Expr(value=ast.copy_location(c, call)), call)
+
+            return ast.copy_location(ast.If(test=ifexp.test, body=[mk(ifexp.body)], orelse=[mk(ifexp.orelse)]), call)
+
+        def log_stmt(st):
+            return st.value if isinstance(st, ast.Expr) and self.is_log_call(st.value) and not st.value.keywords else None
+
+        for fn in [n for n in ast.walk(self.tree) if isinstance(n, (ast.FunctionDef, ast.AsyncFunctionDef))]:
+            for holder in ast.walk(fn):
+                for field in ("body", "orelse", "finalbody"):
+                    stmts = getattr(holder, field, None)
+                    if not isinstance(stmts, list):
+                        continue
+                    i = 0
+                    while i < len(stmts):
+                        call = log_stmt(stmts[i]) if isinstance(stmts[i], ast.stmt) else None
+                        if call is not None:
+                            conds = [k for k, a in enumerate(call.args) if isinstance(a, ast.IfExp)]
+                            if len(conds) == 1 and all(pure(a) for k, a in enumerate(call.args) if k != conds[0]):
+                                stmts[i] = split(call, conds[0], call.args[conds[0]])
+                            elif i > 0 and not conds and all(pure(a) for a in call.args):
+                                prev = stmts[i - 1]
+                                if (
+                                    isinstance(prev, ast.Assign) and len(prev.targets) == 1 and isinstance(prev.targets[0], ast.Name)
+                                    and isinstance(prev.value, ast.IfExp)
+                                ):
+                                    v = prev.targets[0].id
+                                    uses = [k for k, a in enumerate(call.args) if isinstance(a, ast.Name) and a.id == v]
+                                    loads = [n for n in ast.walk(fn) if isinstance(n, ast.Name) and n.id == v and isinstance(n.ctx, ast.Load)]
+                                    stores = [n for n in ast.walk(fn) if isinstance(n, ast.Name) and n.id == v and isinstance(n.ctx, ast.Store)]
+                                    if len(uses) == 1 and len(loads) == 1 and len(stores) == 1:
+                                        stmts[i - 1 : i + 1] = [split(call, uses[0], prev.value)]
+                                        i -= 1
+                        i += 1
+        ast.fix_missing_locations(self.tree)
 
     def is_getlogger(self, v):
         return (
